@@ -547,7 +547,10 @@ type Clause struct {
 
 type LoopSpec struct {
 	Invs  []Clause
+	Prunes *SExpr // ast.Inspect: the closure returns false exactly at nodes satisfying this expression over $node
 	Dec   *Clause
+	entry *State // run time: the state at the entry of the loop execution being checked (for atentry(e))
+	FrameEntry bool // like Frame, relative to the allocation state at loop entry (locations allocated before the loop)
 	Frame bool // heap locations allocated before the function was entered keep, across the loop, the values they had at loop entry (unless written through loop-invariant references)
 }
 
@@ -785,6 +788,16 @@ func parseSpecLines(pkg string, lines []string, poss []string) (*SpecFile, error
 		case "loop":
 			// loop N invariant e | loop N decreases e
 			parts := strings.SplitN(rest, " ", 3)
+			if len(parts) == 3 && parts[1] == "frame" && parts[2] == "entry" {
+				var n int
+				fmt.Sscanf(parts[0], "%d", &n)
+				if cur.Loops[n] == nil {
+					cur.Loops[n] = &LoopSpec{}
+				}
+				cur.Loops[n].Frame = true
+				cur.Loops[n].FrameEntry = true
+				break
+			}
 			if len(parts) == 2 && parts[1] == "frame" {
 				var n int
 				fmt.Sscanf(parts[0], "%d", &n)
@@ -819,6 +832,25 @@ func parseSpecLines(pkg string, lines []string, poss []string) (*SpecFile, error
 		case "at":
 			// at call ast.Inspect#1 invariant e
 			parts := strings.SplitN(rest, " ", 4)
+			if len(parts) >= 3 && parts[0] == "call" && parts[2] == "frame" {
+				if cur.Inspects[parts[1]] == nil {
+					cur.Inspects[parts[1]] = &LoopSpec{}
+				}
+				cur.Inspects[parts[1]].Frame = true
+				cur.Inspects[parts[1]].FrameEntry = len(parts) == 4 && parts[3] == "entry"
+				break
+			}
+			if len(parts) == 4 && parts[0] == "call" && parts[2] == "prunes" {
+				e, err := parseSpecExpr(parts[3], it.pos)
+				if err != nil {
+					return nil, err
+				}
+				if cur.Inspects[parts[1]] == nil {
+					cur.Inspects[parts[1]] = &LoopSpec{}
+				}
+				cur.Inspects[parts[1]].Prunes = e
+				break
+			}
 			if len(parts) < 4 || parts[0] != "call" || parts[2] != "invariant" {
 				return nil, perr(fmt.Errorf("bad 'at call' clause"))
 			}
